@@ -243,7 +243,7 @@ impl Property for C03 {
     fn cases(&self, tier: Tier) -> u64 {
         match tier {
             Tier::Quick => 3_000,
-            Tier::Thorough => 60_000,
+            Tier::Thorough => 45_000,
         }
     }
     fn gen(&self, cs: u64, _tier: Tier, _ctx: &ExecCtx) -> Value {
